@@ -14,7 +14,7 @@
 (* One extra initial state (st = "emit") writes the whole universe as vectors for the driver.    *)
 EXTENDS C20_HoareSem, SequencesExt, Json, IOUtils
 
-CONSTANTS NAsg, NGrd, NAnn, NPre, NPost, Deep
+CONSTANTS NAsg, NGrd, NAnn, NInA, NInG, NPre, NPost, NNatPost, Deep
 
 \* ---------------------------------------------------------------- constructors
 X == <<"v", "x">>   Y == <<"v", "y">>   N(k) == <<"n", k>>
@@ -71,33 +71,36 @@ NBox == BoxCond(NatLo, NatHi, FALSE)
 NBoxed(a) == IF a = True THEN NBox ELSE BoxedWith(NatLo, NatHi, FALSE, a)
 
 \* ---------------------------------------------------------------- program universe
-Progs(asgs, grds, anns) ==
+\* ina / ing : the small pools used at inner positions (first NInA assignments, first NInG guards)
+Progs(asgs, grds, anns, ina, ing, a1) ==
   LET Base == asgs \cup {Skip}
-      A3 == { a \in asgs : \E i \in 1..3 : a = IAsgSeq[i] \/ a = NAsgSeq[i] } \cup {Skip}     \* small pool for inner positions
-      A1 == { a \in asgs : a = IAsgSeq[1] \/ a = NAsgSeq[1] } \cup {Skip}
-      G1 == { g \in grds : g = IGrdSeq[1] \/ g = NGrdSeq[1] }
-      G2 == { g \in grds : \E i \in 1..2 : g = IGrdSeq[i] \/ g = NGrdSeq[i] }
+      AI == ina \cup {Skip}
       Seqs == { SeqC(a, b) : a \in asgs, b \in asgs }
-      Ifs == { If(g, a, b) : g \in grds, a \in A3, b \in A3 }
+      Ifs == { If(g, a, b) : g \in grds, a \in AI, b \in AI }
+      SeqIf == { SeqC(a, If(h, b, c)) : a \in ina, h \in ing, b \in AI, c \in AI }
       Wh1 == { While(g, i, b) : g \in grds, i \in anns, b \in asgs }
-      Wh2 == { While(g, i, SeqC(a, b)) : g \in G2, i \in anns, a \in A3 \ {Skip}, b \in A1 \ {Skip} }
-      SeqWh == { SeqC(a, While(g, i, b)) : a \in A3 \ {Skip}, g \in G2, i \in anns, b \in A3 \ {Skip} }
-      WhIf == { While(g, i, If(h, a, Skip)) : g \in G2, h \in G2, i \in anns, a \in A3 \ {Skip} }
-      IfWh == { If(h, While(g, i, a), b) : h \in G2, g \in G1, i \in anns, a \in A3 \ {Skip}, b \in A1 }
+      Wh1s == { While(g, i, b) : g \in ing, i \in anns, b \in ina }
+      Wh2 == { While(g, i, SeqC(a, b)) : g \in ing, i \in anns, a \in ina, b \in ina }
+      SeqWh == { SeqC(a, While(g, i, b)) : a \in ina, g \in ing, i \in anns, b \in ina }
+      WhIf == { While(g, i, If(h, a, Skip)) : g \in ing, h \in ing, i \in anns, a \in ina }
+      IfWh == { If(h, While(g, i, a), b) : h \in ing, g \in ing, i \in anns, a \in ina, b \in {a1, Skip} }
       \* nesting 3 (and 4 when Deep)
-      N3 == { SeqC(a, While(g, i, SeqC(b, If(h, a, Skip)))) : a \in A3 \ {Skip}, b \in A3 \ {Skip}, g \in G2, h \in G1, i \in anns }
-            \cup { While(g, i, SeqC(a, While(h, j, b))) : g \in G2, h \in G1, i \in anns, j \in anns, a \in A1 \ {Skip}, b \in A3 \ {Skip} }
-      N4 == IF Deep THEN { SeqC(w, If(h, SeqC(a, b), Skip)) : w \in Wh1, h \in G2, a \in A3 \ {Skip}, b \in A3 \ {Skip} }
-                          \cup { If(h, SeqC(a, While(g, i, If(h, b, Skip))), b) : h \in G2, g \in G2, i \in anns, a \in A3 \ {Skip}, b \in A3 \ {Skip} }
+      N3 == { SeqC(a, While(g, i, SeqC(b, If(h, a, Skip)))) : a \in ina, b \in ina, g \in ing, h \in ing, i \in anns }
+            \cup { While(g, i, SeqC(a1, While(h, j, b))) : g \in ing, h \in ing, i \in anns, j \in anns, b \in ina }
+      N4 == IF Deep THEN { SeqC(w, If(h, SeqC(a, b), Skip)) : w \in Wh1s, h \in ing, a \in ina, b \in ina }
+                          \cup { If(h, SeqC(a, While(g, i, If(h, b, Skip))), b) : h \in ing, g \in ing, i \in anns, a \in ina, b \in ina }
             ELSE {}
-  IN Base \cup Seqs \cup Ifs \cup Wh1 \cup Wh2 \cup SeqWh \cup WhIf \cup IfWh \cup N3 \cup N4
+  IN Base \cup Seqs \cup Ifs \cup SeqIf \cup Wh1 \cup Wh2 \cup SeqWh \cup WhIf \cup IfWh \cup N3 \cup N4
 IAnn == { IBoxed(a) : a \in Take(IAssSeq, NAnn) }
 NAnn2 == { NBoxed(a) : a \in Take(NAssSeq, NAnn) }
-IProgs == Progs(Take(IAsgSeq, NAsg), Take(IGrdSeq, NGrd), IAnn)
-NProgs == Progs(Take(NAsgSeq, NAsg), Take(NGrdSeq, NGrd), NAnn2)
+IProgs == Progs(Take(IAsgSeq, NAsg), Take(IGrdSeq, NGrd), IAnn, Take(IAsgSeq, NInA), Take(IGrdSeq, NInG), IAsgSeq[1])
+NProgs == Progs(Take(NAsgSeq, NAsg), Take(NGrdSeq, NGrd), NAnn2, Take(NAsgSeq, NInA), Take(NGrdSeq, NInG), NAsgSeq[1])
 Trip(d, c, P, Q) == [dom |-> d, prog |-> c, pre |-> P, post |-> Q]
+\* preconditions: the pool, and  box & wp(c, Q)  (the weakest precondition the reference computes: {wp(c,Q)} c {Q})
 ITriples == { Trip("int", c, IBoxed(P), Q) : c \in IProgs, P \in Take(IAssSeq, NPre), Q \in Take(IAssSeq, NPost) }
-NTriples == { Trip("nat", c, NBoxed(P), Q) : c \in NProgs, P \in Take(NAssSeq, NPre), Q \in Take(NAssSeq, NPost) }
+            \cup { Trip("int", c, IBoxed(WPV(c, Q)[1]), Q) : c \in IProgs, Q \in Take(IAssSeq, NPost) }
+NTriples == { Trip("nat", c, NBoxed(P), Q) : c \in NProgs, P \in Take(NAssSeq, NPre), Q \in Take(NAssSeq, NNatPost) }
+            \cup { Trip("nat", c, NBoxed(WPV(c, Q)[1]), Q) : c \in NProgs, Q \in Take(NAssSeq, NNatPost) }
 BoxD(d) == IF d = "int" THEN BoxOf(IntLo, IntHi) ELSE BoxOf(NatLo, NatHi)
 RefHold(t) == \A vc \in RefVCs(t.pre, t.prog, t.post) : HoldsOn(vc, BoxD(t.dom))
 RefGuarded(t) == \A vc \in RefVCs(t.pre, t.prog, t.post) :
@@ -107,10 +110,20 @@ RefGuarded(t) == \A vc \in RefVCs(t.pre, t.prog, t.post) :
 Flagged == { [t |-> t, valid |-> RefHold(t)] : t \in ITriples \cup NTriples }
 
 \* ---------------------------------------------------------------- the machine
-VARIABLES trip, s0, kont, s, st
-vars == <<trip, s0, kont, s, st>>
-Dummy == Trip("int", Skip, True, True)
-IsLoop(c) == c[1] = "while" \/ (c[1] = "seq" /\ c[3][1] = "while")
+\* A state keeps what execution and the properties need: the program without its annotations (execution ignores
+\* invariants), the postcondition, the initial and the current store, the continuation.  Triples that differ only in
+\* annotations / preconditions share their executions.
+VARIABLES prog, post, s0, kont, s, st
+vars == <<prog, post, s0, kont, s, st>>
+RECURSIVE Strip(_), HasLoop(_)
+Strip(c) == CASE c[1] \in {"skip", "asg"} -> c
+              [] c[1] = "seq" -> <<"seq", Strip(c[2]), Strip(c[3])>>
+              [] c[1] = "if" -> <<"if", c[2], Strip(c[3]), Strip(c[4])>>
+              [] c[1] = "while" -> <<"while", c[2], True, Strip(c[4])>>
+HasLoop(c) == CASE c[1] \in {"skip", "asg"} -> FALSE
+                [] c[1] = "seq" -> HasLoop(c[2]) \/ HasLoop(c[3])
+                [] c[1] = "if" -> HasLoop(c[3]) \/ HasLoop(c[4])
+                [] c[1] = "while" -> TRUE
 \* (program, initial store) inputs for symbolic evaluation: guards that imp.eval_Sem can decide, terminating runs
 RECURSIVE EqGuards(_)
 EqGuards(c) == CASE c[1] \in {"skip", "asg"} -> TRUE
@@ -122,11 +135,14 @@ Emit(all) == /\ LET vs == SetToSeq({ [dom |-> f.t.dom, prog |-> f.t.prog, pre |-
                   IN ndJsonSerialize(IOEnv.VECTOR_FILE, vs)
              /\ ndJsonSerialize(IOEnv.VECTOR_FILE_SEM, SetToSeq(SemVectors))
              /\ PrintT(<<"C20stats", Cardinality(ITriples), Cardinality(NTriples), Cardinality(SemVectors),
-                         Cardinality({ f \in all : f.valid }), Cardinality({ f \in all : f.valid /\ IsLoop(f.t.prog) })>>)
+                         Cardinality({ f \in all : f.valid }), Cardinality({ f \in all : f.valid /\ HasLoop(f.t.prog) })>>)
 Init == LET all == Flagged IN
-        \/ /\ st = "emit" /\ trip = Dummy /\ s0 = ZeroStore /\ s = ZeroStore /\ kont = <<>> /\ Emit(all)
-        \/ /\ st = "run" /\ trip \in { f.t : f \in { g \in all : g.valid } } /\ s0 \in BoxD(trip.dom) /\ EvalB(trip.pre, s0)
-           /\ s = s0 /\ kont = <<trip.prog>>
+        \/ /\ st = "emit" /\ prog = Skip /\ post = True /\ s0 = ZeroStore /\ s = ZeroStore /\ kont = <<>> /\ Emit(all)
+        \/ /\ st = "run"
+           /\ \E f \in { g \in all : g.valid } :
+                 /\ prog = Strip(f.t.prog) /\ post = f.t.post
+                 /\ s0 \in { s1 \in BoxD(f.t.dom) : EvalB(f.t.pre, s1) }
+           /\ s = s0 /\ kont = <<prog>>
 Step == /\ st = "run"
         /\ IF Len(kont) = 0 THEN st' = "done" /\ UNCHANGED <<kont, s>>
            ELSE LET c == Head(kont)  rest == Tail(kont) IN
@@ -137,14 +153,14 @@ Step == /\ st = "run"
                [] c[1] = "seq" -> kont' = <<c[2], c[3]>> \o rest /\ UNCHANGED <<s, st>>
                [] c[1] = "if" -> kont' = <<IF EvalB(c[2], s) THEN c[3] ELSE c[4]>> \o rest /\ UNCHANGED <<s, st>>
                [] c[1] = "while" -> kont' = (IF EvalB(c[2], s) THEN <<c[4], c>> \o rest ELSE rest) /\ UNCHANGED <<s, st>>
-        /\ UNCHANGED <<trip, s0>>
+        /\ UNCHANGED <<prog, post, s0>>
 Next == Step
 Spec == Init /\ [][Next]_vars
 
 \* ---------------------------------------------------------------- properties
-Sound == st = "done" => EvalB(trip.post, s)
-ExecAgrees == /\ st = "done" => LET r == Run(trip.prog, s0) IN r[1] = "div" \/ (r[1] = "ok" /\ r[2] = s)
-              /\ st = "big" => Run(trip.prog, s0)[1] \in {"div", "big"}
+Sound == st = "done" => EvalB(post, s)
+ExecAgrees == /\ st = "done" => LET r == Run(prog, s0) IN r[1] = "div" \/ (r[1] = "ok" /\ r[2] = s)
+              /\ st = "big" => Run(prog, s0)[1] \in {"div", "big"}
 \* design decision (i): every reference condition of the universe is guarded, i.e. decided exactly on the box
 AllGuarded == st = "emit" => \A t \in ITriples \cup NTriples : RefGuarded(t)
 =============================================================================
